@@ -144,6 +144,26 @@ func (state *RuntimeState) idpOpenIDCGetClientConfig(client_id string) (*OpenIDC
 	return nil, ErrorIDPClientNotFound
 }
 
+// hostMatchesDomain reports whether host is the configured domain itself or
+// a subdomain of it. The suffix comparison must start at a label boundary:
+// "evilexample.com" is not inside "example.com". A domain configured with a
+// leading dot (".example.com") already carries its boundary. An empty domain
+// or host matches nothing. The comparison is byte exact: browsers lower-case
+// host names, so a host that is not written the way the domain is configured
+// is refused rather than normalized.
+func hostMatchesDomain(host, domain string) bool {
+	if domain == "" || host == "" {
+		return false
+	}
+	if host == domain {
+		return true
+	}
+	if strings.HasPrefix(domain, ".") {
+		return strings.HasSuffix(host, domain)
+	}
+	return strings.HasSuffix(host, "."+domain)
+}
+
 // https://tools.ietf.org/id/draft-ietf-oauth-security-topics-10.html states
 // that redirects MUST be exact matches.
 // We allow our users to be less strict (for facilitation of internal deployments).
@@ -189,7 +209,7 @@ func (client *OpenIDConnectClientConfig) CanRedirectToURL(redirectUrl string) (b
 	}
 	matchedDomain := false
 	for _, domain := range client.AllowedRedirectDomains {
-		matched := strings.HasSuffix(parsedURL.Hostname(), domain)
+		matched := hostMatchesDomain(parsedURL.Hostname(), domain)
 		if matched {
 			matchedDomain = true
 			break
@@ -208,7 +228,7 @@ func (client *OpenIDConnectClientConfig) CorsOriginAllowed(origin string) (bool,
 		return false, nil
 	}
 	for _, domain := range client.AllowedRedirectDomains {
-		matched := strings.HasSuffix(parsedURL.Hostname(), domain)
+		matched := hostMatchesDomain(parsedURL.Hostname(), domain)
 		if matched {
 			return true, nil
 		}
@@ -240,7 +260,7 @@ func (state *RuntimeState) idpOpenIDCGenericIsCorsOriginAllowed(origin string) (
 	}
 	for _, client := range state.Config.OpenIDConnectIDP.Client {
 		for _, domain := range client.AllowedRedirectDomains {
-			matched := strings.HasSuffix(parsedURL.Hostname(), domain)
+			matched := hostMatchesDomain(parsedURL.Hostname(), domain)
 			if matched {
 				return true, nil
 			}
